@@ -28,7 +28,7 @@ theorem fWithPrecision_contract (B : Nat) (hB : 2 ≤ B) (m : Mode) (p : Nat) (h
     Contract B m p (x.repr.toRat B) ((fWithPrecision B m coarseNone x p).1.repr.toRat B)
       (fWithPrecision B m coarseNone x p).2 := by
   unfold fWithPrecision
-  by_cases h : x.prec > p
+  by_cases h : x.prec > p ∨ (x.prec = 0 ∧ p > 0)
   · simp only [h, if_true]
     exact ⟨trivial, reprRound_contract B hB m coarseNone coarseNone_sound p hp x.repr hn⟩
   · simp only [h, if_false]
@@ -38,7 +38,7 @@ theorem fWithPrecision_contract (B : Nat) (hB : 2 ≤ B) (m : Mode) (p : Nat) (h
 theorem fWithPrecision_zero (B : Nat) (m : Mode) (x : FBigM) :
     (fWithPrecision B m coarseNone x 0).1.repr = x.repr ∧ (fWithPrecision B m coarseNone x 0).2 = none := by
   unfold fWithPrecision
-  by_cases h : x.prec > 0
+  by_cases h : x.prec > 0 ∨ (x.prec = 0 ∧ 0 > 0)
   · simp only [h, if_true]
     have : reprRound B m coarseNone 0 x.repr = (x.repr, none) := by unfold reprRound; simp
     rw [this]; exact ⟨by simp, by simp⟩
